@@ -56,7 +56,7 @@ TInit ==
   /\ S = [p \in Procs |-> NilSig]
   /\ L = [p \in Procs |-> LInit]
   /\ token = [p \in Procs |-> FALSE] /\ woken = {} /\ now = 0
-  /\ G = [delivered |-> <<>>, dropped |-> <<>>, created |-> {}, order |-> <<>>, acc |-> <<>>]
+  /\ G = [delivered |-> <<>>, dropped |-> <<>>, created |-> {}, order |-> <<>>, acc |-> <<>>, closed |-> FALSE]
 
 Adv == i' = i + 1
 P == E.t
@@ -72,7 +72,7 @@ TReset ==
   /\ C' = [queue |-> <<>>, wl |-> <<>>, rb |-> FALSE, sc |-> E.sc, rc |-> E.rc, lock |-> NOPROC]
   /\ S' = [p \in Procs |-> NilSig] /\ L' = [p \in Procs |-> LInit]
   /\ token' = [p \in Procs |-> FALSE] /\ woken' = {} /\ now' = 0
-  /\ G' = [delivered |-> <<>>, dropped |-> <<>>, created |-> {}, order |-> <<>>, acc |-> <<>>]
+  /\ G' = [delivered |-> <<>>, dropped |-> <<>>, created |-> {}, order |-> <<>>, acc |-> <<>>, closed |-> FALSE]
   /\ Adv
 
 \* the clock is raised to the time stamp of the next event (Tick steps)
@@ -173,5 +173,8 @@ ASSUME TLCSet(2, 0)
 Post == IF TLCGet(2) > Len(Rec) THEN TRUE
         ELSE Print(<<"REJECTED-AT", TLCGet(2), Rec[TLCGet(2)]>>, FALSE)
 \* design-level invariants are also evaluated on every state a real execution drives the model through
-TraceInv == Once /\ CapOK /\ WaitShape /\ ListedAreArmed /\ NoAccessToDeadSignal /\ Fifo /\ FifoNow /\ TryNeverWaits
+\* (i points at the next unconsumed record, so the state was reached by record i - 1)
+TraceInvBody == Once /\ CapOK /\ WaitShape /\ ListedAreArmed /\ NoAccessToDeadSignal /\ Fifo /\ FifoNow /\ TryNeverWaits
+                /\ ClosedShape /\ DisconnectShape /\ TimeoutNotEarly
+TraceInv == TraceInvBody \/ Print(<<"REJECTED-AT", IF i > 1 THEN i - 1 ELSE 1, "invariant", Rec[IF i > 1 THEN i - 1 ELSE 1]>>, FALSE)
 =============================================================================
